@@ -211,6 +211,16 @@ def r3(ctx):
 
     sa, sb = shape(a), shape(b)
     ctx.ob("R3", "AGREE", a, "find_mz_offset ~ find_architecture", sa == sb, "both scanners use the same range, seeks, e_lfanew constraint, start handling and EOF handling" if sa == sb else f"siblings differ: {sa} vs {sb}")
+    # the magic bytes (e_magic, PE signature) are customisable artifacts that are *reported*: a candidate header is judged
+    # by e_lfanew and Machine only, never by its magic
+    from csverif.q import inline as _inl
+    for f in (a, b):
+        svars = {dotted(s2.targets[0]) for s2 in statements(f.node) if isinstance(s2, ast.Assign) and isinstance(s2.value, ast.Call) and ctx.rs.resolve_call(f, s2.value).kind == "struct"}
+        tested = sorted({n.attr for s2 in statements(f.node) if isinstance(s2, (ast.If, ast.While)) for n in ast.walk(_inl(f.node, s2.test, stop=frozenset(svars))) if isinstance(n, ast.Attribute) and dotted(n.value) in svars}
+                        | {n.attr for s2 in ast.walk(f.node) if isinstance(s2, (ast.IfExp, ast.Assert)) for n in ast.walk(s2.test) if isinstance(n, ast.Attribute) and dotted(n.value) in svars})
+        extra = [t for t in tested if t not in ("e_lfanew", "Machine")]
+        ctx.ob("R3", "AGREE", f, "candidate judged by e_lfanew and Machine only", bool(svars) and not extra,
+               f"header fields tested: {tested}" + ("" if not extra else f"; {extra} must not filter candidates (a stage with customised magic would not be located)"), f.node)
     lf_ok = False
     for s2 in statements(a.node):
         if isinstance(s2, ast.If) and "e_lfanew" in src(s2.test):
